@@ -662,6 +662,37 @@ func ruleGo(c *Ctx) *RuleResult {
 					}
 				}
 			})
+			// the new goroutine waits before it does anything: its creator keeps running Lua
+			// until the first resume, so every call of the goroutine's body (the deferred
+			// handler's registration aside) comes after the first getResumeValues
+			var wait ssa.Instruction
+			forEachInstr(bf, func(bi ssa.Instruction) {
+				if call, ok := bi.(*ssa.Call); ok && wait == nil && calleeNamed(call, "getResumeValues") {
+					wait = bi
+				}
+			})
+			if wait == nil {
+				r.fail("go-no-wait", p.Pos(bf.Pos()), "the coroutine goroutine no longer waits for its first resume (getResumeValues)")
+			} else {
+				early := ""
+				forEachInstr(bf, func(bi ssa.Instruction) {
+					call, ok := bi.(*ssa.Call)
+					if !ok || bi == wait {
+						return
+					}
+					if _, isB := call.Call.Value.(*ssa.Builtin); isB {
+						return
+					}
+					if !instrDominates(wait, bi) {
+						early = p.InstrPos(bi)
+					}
+				})
+				if early == "" {
+					r.ok("the coroutine goroutine does nothing before its first resume")
+				} else {
+					r.fail("go-work-before-first-resume", early, "the coroutine goroutine calls into the runtime before it has been resumed for the first time: until then its creator is still running Lua on another goroutine, so whatever the call touches (continuation pools, the memory counter, the current continuation) is touched by two goroutines at once")
+				}
+			}
 			if okAll {
 				r.ok("the coroutine goroutine defers a handler that calls t.end on every return")
 			} else {
